@@ -195,6 +195,37 @@ def run(chk):
             tr = np.abs(s1.T - want).max()
             chk.fail("gibbs-state-wrong:" + kind, f"GibbsTempo deviates from {what} by {dev:.2e} (its transpose by {tr:.2e}); n_steps={nst}", info)
 
+    # ---- (b3) a coupling-strength scan with ONE spectral-density object: baths built at different coupling strengths, all
+    # used only after all of them exist (each bath keeps the strength it was built with) -------------------------------------
+    for it in range(2 if thorough else 1):
+        T, nst = rng.choice([0.5, 1.0]), rng.choice([4, 6])
+        o = np.diag([1.0, 0.0, -0.5][:3])
+        a = np.array([[rng.gauss(0, 1) + 1j * rng.gauss(0, 1) for _ in range(3)] for _ in range(3)])
+        H = (a + a.conj().T) / 3
+        kw = dict(zeta=1, cutoff=3.0, cutoff_type="exponential", temperature=T)
+        scan = oqupy.PowerLawSD(alpha=0.3, **kw)
+        strengths = [0.3, 0.0, 0.1]
+        baths = []
+        for al in strengths:
+            scan.alpha = al
+            baths.append(oqupy.Bath(o, scan))
+        info = {"kind": "coupling-scan", "T": T, "n_steps": nst, "strengths": strengths}
+        chk.search_cases += 1
+        chk.count("gibbs_coupling_scan")
+        try:
+            got = [quiet(oqupy.gibbs_tempo_compute, oqupy.System(H), b_, oqupy.GibbsParameters(n_steps=nst, epsrel=1e-10), progress_type="silent") for b_ in baths]
+            want = [quiet(oqupy.gibbs_tempo_compute, oqupy.System(H), oqupy.Bath(o, oqupy.PowerLawSD(alpha=al, **kw)), oqupy.GibbsParameters(n_steps=nst, epsrel=1e-10),
+                          progress_type="silent") for al in strengths]
+        except Exception as ex:
+            chk.fail("gibbs-raises", f"GibbsTempo raises {ex!r}", info)
+            continue
+        canon = expm(-H / T)
+        canon = canon / np.trace(canon)
+        devs = [float(np.abs(np.array(g_) - np.array(w_)).max()) for g_, w_ in zip(got, want)]
+        if max(devs) > 1e-9 or np.abs(np.array(got[1]) - canon).max() > 1e-8:
+            chk.fail("gibbs-scan-mixes-strengths", f"baths built from one PowerLawSD object at alpha = {strengths}: the Gibbs states differ from those of freshly built "
+                     f"spectral densities by {devs}; the zero-coupling one from exp(-H/T)/Z by {np.abs(np.array(got[1]) - canon).max():.2e}", info)
+
     # ---- (b2) the zero of energy is irrelevant: a sweep of offsets H + E0 (E0/T from -15 to 30), two tolerances -----------
     for it in range(4 if thorough else 2):
         d = 3
